@@ -449,7 +449,7 @@ func c18ReadSub() *engine.Sub {
 	}
 	return &engine.Sub{
 		Name: "readers",
-		Rule: "every streaming decoder on every matching artefact (sealed and DAG-JSON tokens, containers; plus tokens and containers of 1 MiB and more, for which only the fault-free chunkings are compared): (1) chunk sizes {1,2,3,7,whole} x EOF {separate, with data}, and the stream cut into two pieces after k bytes for every k (and three: k, 1, rest) - one artefact carries characters of 1 to 4 bytes at several alignments -: result equals the buffered API's; (2) positional faults: an injected error after k delivered bytes for every k in [0,len] (returned alone, and returned together with the bytes up to k) and an early EOF for every k in [0,len) must yield an error (a CAR cut exactly at a block boundary yields exactly the blocks before it); one Read answering (0, nil) - nothing happened, call again - after k delivered bytes for every k, with chunks {whole, 1, 7}, bare and behind the caller's own *bufio.Reader, must not change the result; one Read failing after k bytes with an error that calls itself temporary (EAGAIN, EINTR, deadline exceeded, a net-style timeout, ErrNoProgress, ErrShortBuffer), the reader being able to go on afterwards, must yield an error; the same errors returned by EVERY Read from offset k on must yield an error too - the call returns (a caller still reading after 10000 consecutive failures is charged with not terminating); (3) E3: deviation-bounded DFS over per-Read answers {all, 1 byte, half, last-bytes-with-EOF, early EOF, error, bytes-together-with-error, (0, nil) (at most twice, never twice in a row; explored in a second pass of the thorough tier with one deviation less: an empty read combined with one other deviation)}: fault-free schedules agree with the buffered API, faulty ones return an error; non-trivial = executions with at least one deviation or fault",
+		Rule: "every streaming decoder on every matching artefact (sealed and DAG-JSON tokens, containers; plus tokens and containers of 1 MiB and more, for which only the fault-free chunkings are compared): (1) chunk sizes {1,2,3,7,whole} x EOF {separate, with data}, and the stream cut into two pieces after k bytes for every k (and three: k, 1, rest) - one artefact carries characters of 1 to 4 bytes at several alignments -: result equals the buffered API's; (2) positional faults: an injected error after k delivered bytes for every k in [0,len] (returned alone, and returned together with the bytes up to k; a plain error, and errors that wrap io.EOF / io.ErrUnexpectedEOF) and an early EOF for every k in [0,len) must yield an error (a CAR cut exactly at a block boundary yields exactly the blocks before it); one Read answering (0, nil) - nothing happened, call again - after k delivered bytes for every k, with chunks {whole, 1, 7}, bare and behind the caller's own *bufio.Reader, must not change the result; one Read failing after k bytes with an error that calls itself temporary (EAGAIN, EINTR, deadline exceeded, a net-style timeout, ErrNoProgress, ErrShortBuffer), the reader being able to go on afterwards, must yield an error; the same errors returned by EVERY Read from offset k on must yield an error too - the call returns (a caller still reading after 10000 consecutive failures is charged with not terminating); (3) E3: deviation-bounded DFS over per-Read answers {all, 1 byte, half, last-bytes-with-EOF, early EOF, error, bytes-together-with-error, (0, nil) (at most twice, never twice in a row; explored in a second pass of the thorough tier with one deviation less: an empty read combined with one other deviation)}: fault-free schedules agree with the buffered API, faulty ones return an error; non-trivial = executions with at least one deviation or fault",
 		Bound: func(t string) string {
 			return fmt.Sprintf("E3 deviation bound %d (per artefact x API), all offsets for positional faults, 10 chunkings", tierN(t, 2, 3))
 		},
@@ -724,6 +724,20 @@ func c18ReadSub() *engine.Sub {
 						ctx.Trans(1)
 						ctx.Nontrivial(1)
 						rc := &c18ReadCase{Art: cs.Art, API: cs.API, Mode: cs.Mode, At: k, ArtHex: hex.EncodeToString(a.Data)}
+						if mode != "eof" && ch == 0 && !a.Huge {
+							// the same fault with an error that WRAPS io.EOF (errors.Is(err, io.EOF) holds, err == io.EOF does not):
+							// "the connection was cut" as many clients report it - a failure, not the end of the data
+							for _, werr := range c18WrappedEOFs {
+								wr := &engine.PosReader{Data: a.Data, Chunk: ch, FailAt: k, Mode: mode, StickyErr: werr}
+								wgot, werr2 := api.Stream(wr)
+								ctx.Eval(1)
+								if werr2 == nil && wr.Hit {
+									if exp, ok := carPrefixExpected(a, k); !(ok && wgot == exp) || k < len(a.Data) {
+										ctx.Failf(rc, "fault-swallowed/error-wrapping-eof/"+tag, "%s on %s returns a result although the Read after %d of %d bytes failed with %q (an error that wraps io.EOF is an error)", api.Name, a.Name, k, len(a.Data), werr)
+									}
+								}
+							}
+						}
 						if err != nil {
 							ctx.Outcome("fault-reported")
 							continue
@@ -803,6 +817,8 @@ type tempErr struct{}
 func (tempErr) Error() string   { return "harness: injected temporary error" }
 func (tempErr) Temporary() bool { return true }
 func (tempErr) Timeout() bool   { return true }
+
+var c18WrappedEOFs = []error{fmt.Errorf("read body: %w", io.EOF), fmt.Errorf("connection reset: %w", io.ErrUnexpectedEOF)}
 
 var c18TransientErrors = []error{syscall.EAGAIN, syscall.EINTR, os.ErrDeadlineExceeded, tempErr{}, io.ErrNoProgress, io.ErrShortBuffer}
 
